@@ -129,6 +129,14 @@ fn main() {
             let code = with_prop!(id.as_str(), p => framework::worker_entry(&p, &args));
             std::process::exit(code);
         }
+        #[cfg(any(feature = "tlsnative", feature = "tlsrustls"))]
+        "c12" => {
+            std::process::exit(props::c12::main_c12(&args));
+        }
+        #[cfg(any(feature = "tlsnative", feature = "tlsrustls"))]
+        "replay" if args.get(1).map(|s| s == "C12").unwrap_or(false) => {
+            std::process::exit(props::c12::replay_c12(&PathBuf::from(&args[2])));
+        }
         "exec1" => {
             let id = args[1].clone();
             let path = PathBuf::from(&args[2]);
